@@ -283,9 +283,25 @@ def run_presync(case, ctx):
     def probe(a, b=None, c=None):
         seen.append((a, b, c))
         return a
-    dec = presync(probe, index={'ij': 'inner', 'oj': 'outer', 'lj': 'left', 'rj': 'right'}[policy], method=method, columns=False)
+    form = case.get('form', 'ctor')
+    call_kw = {}
+    if form == 'ctor':
+        dec = presync(probe, index={'ij': 'inner', 'oj': 'outer', 'lj': 'left', 'rj': 'right'}[policy], method=method, columns=False)
+    elif form in ('chain_join_first', 'chain_fill_first'):
+        dec = presync(probe, columns=False)
+        steps = [policy] + ([method] if method else [])
+        if form == 'chain_fill_first':
+            steps = steps[::-1]
+        for sname in steps:
+            dec = getattr(dec, sname)
+    else:   # call-time keywords
+        dec = presync(probe, columns=False)
+        call_kw = {'join': policy}
+        if method:
+            call_kw['method'] = method
     index = joint(specs, policy, None)
-    st, res = ctx.call(dec, *args, **kw)
+    st, res = ctx.call(dec, *args, **dict(kw, **call_kw))
+    ctx.cls('presync:' + form)
     if st != 'ok' or len(seen) != 1:
         ctx.ev('presync_probe_saw_aligned'); ctx.fail('presync_probe_saw_aligned', 'presync(probe)(...) -> %s %r ; probe called %d times' % (st, res, len(seen)))
         return
@@ -438,7 +454,8 @@ def gen_case(rng):
         for nm, it in zip(['b', 'c'][nargs - 1:], items[nargs:]):
             if rng.random() < 0.6:
                 kwargs[nm] = it
-        return {'kind': 'presync', 'args': args, 'kwargs': kwargs, 'policy': policy, 'method': method, 'intraday': intraday}
+        return {'kind': 'presync', 'args': args, 'kwargs': kwargs, 'policy': policy, 'method': method, 'intraday': intraday,
+                'form': rng.choice(['ctor', 'chain_join_first', 'chain_fill_first', 'call_kw'])}
     multi = rng.random() < 0.35
     api = rng.choice(['df_sync', 'df_reindex']) if not multi else 'df_sync'
     x = gen_container(rng, ids, 0, multi, method is not None)
